@@ -114,7 +114,8 @@ def arbitrary_cases(rng, n, seeds):
     out = ["", ",", ",,", "x", "x,", "x,y,", ",x", "(,)", "x,y", "((x,y", "x,y))", "(x),(y)", "1/0,x", "x,1/0", "0/0,0/0",
            "x*2,y", "1*2,y", "2/3/4,y", "12,y", "1/23,y", "x-y,x+y", "xx,y", "-,-", "x,y ", " x,y", "x,y\n", "-x,-y+1/2",
            "9/9-x,7-y", "x,y,z", "é,x", "x,−y", "1/2 x,y", "x 1/2,y", "--x,y", "+-x,y", "-+x,y", "1-/2,y",
-           "1/-2,y", "-1/-2,y", "1/2/,y", "/2,y", "*,y"]
+           "1/-2,y", "-1/-2,y", "1/2/,y", "/2,y", "*,y", "x+½,y", "x,y²", "٣,y", "x,３", "Ⅰ,y", "x/2,y/2",
+           "1/2+x,1/2+y", "x+1/2,y+1/4", "-y+x,x", "-y+1/2,-x+1/2", "-x-y-1/2,-y-x"]
     for _ in range(n):
         k = rng.randrange(3)
         if k == 0:
